@@ -9,16 +9,6 @@ set_option linter.unusedSimpArgs false
 namespace ASV.RegionExtract
 open ASV
 
-theorem chainFree_short (l : List Part) (h : l.length ≤ 2) : chainFree l = true := by
-  match l, h with
-  | [], _ => rfl
-  | [_], _ => rfl
-  | [_, _], _ => rfl
-  | _ :: _ :: _ :: _, h => simp at h
-
-theorem wrapPart_length (L : Int) (p : Part) : (wrapPart L p).length ≤ 2 := by
-  unfold wrapPart; simp only; split <;> simp
-
 theorem len_pos_of_parts (L : Int) (l : Loc) (hne : l.parts ≠ []) (hp : ∀ p ∈ l.parts, PartIn L p) : 0 < l.len := by
   unfold Loc.len
   have : ∀ ps : List Part, ps ≠ [] → (∀ p ∈ ps, PartIn L p) → 0 < (ps.map Part.len).sum := by
@@ -44,7 +34,6 @@ theorem simple_rotated (p : Part) (st L : Int) (hp : PartIn L p) (hst0 : 0 < st)
   obtain ⟨r, hr, _, hrl, hmem⟩ := offset_rotates_general (.simple p) (-st) L p.strand (by simp [Loc.parts]) hparts
     (by intro q hq; simp [Loc.parts] at hq; subst hq; rfl) (by omega) (by omega) (by omega)
     (by simpa [Loc.len, Loc.parts, Part.len] using hlen)
-    (chainFree_short _ (by simp [rotPieces, Loc.parts]; exact wrapPart_length L _))
   refine ⟨r, hr, ?_, fun i => ?_⟩
   · intro he
     have h0 := len_pos_of_parts L (.simple p) (by simp [Loc.parts]) hparts
